@@ -48,6 +48,9 @@ type Ctx struct {
 	nontriv  int64
 	evals    int64
 	Tier     string
+	// Yield, if set, is called before every API call and inside every sink /
+	// source call of the engines (the lock-step scheduler of C14 parks there).
+	Yield func()
 }
 
 func newCtx(verbose bool, tier string) *Ctx {
@@ -142,6 +145,10 @@ type Spec[C any] struct {
 	// Pre runs once before the batch (oracle self checks); a non-nil error is
 	// exit 2.
 	Pre func(tier string) error
+	// Post runs after a clean batch (extra phases such as the race-detector
+	// half of C14). It may add to coverage and returns an exit code (0, 1, 2)
+	// plus lines to print.
+	Post func(tier string, seed uint64, cov map[string]any) (int, []string)
 }
 
 // Check is the non-generic face of a Spec.
@@ -450,6 +457,18 @@ func (ci *checkImpl[C]) Batch(tier string, seed uint64) int {
 	if s.Extra != nil {
 		s.Extra(cov)
 	}
+	if s.Post != nil && exit == 0 {
+		code, lines := s.Post(tier, seed, cov)
+		for _, l := range lines {
+			fmt.Println(l)
+		}
+		if code != 0 {
+			exit = code
+			if code == 1 {
+				nviol++
+			}
+		}
+	}
 	ev := map[string]any{
 		"property_id": s.Property,
 		"tier":        tier,
@@ -472,7 +491,6 @@ func (ci *checkImpl[C]) Batch(tier string, seed uint64) int {
 	}
 	return exit
 }
-
 
 type foundJSON struct {
 	Idx  int             `json:"idx"`
@@ -767,7 +785,7 @@ func writeEvidence(id string, ev map[string]any) error {
 	if err != nil {
 		return err
 	}
-	return os.WriteFile(filepath.Join(dir, id+".json"), append(b, '\n'), 0o644)
+	return os.WriteFile(filepath.Join(dir, id+".json"+os.Getenv("VERIF_EVIDENCE_SUFFIX")), append(b, '\n'), 0o644)
 }
 
 func (ci *checkImpl[C]) writeReplay(seed uint64, idx int, rs uint64, c *C, v *Violation, min bool) string {
